@@ -47,8 +47,17 @@ def mk_interp(model):
     return I
 
 
+def show(x):
+    from ..alg import time_limit
+    try:
+        with time_limit(5):
+            return str(sp.simplify(x))
+    except Exception:
+        return str(x)
+
+
 def zero(expr):
-    return decide_zero(sp.simplify(expr))[0] == "zero"
+    return decide_zero(expr)[0] == "zero"
 
 
 def r_methods(ctx: Ctx, model):
@@ -86,7 +95,7 @@ def r_methods(ctx: Ctx, model):
                 want_w = [2 * (tt[i] + r[i]) for i in range(0, N - 1)]    # each interval is reported at its lower-pressure point
                 okw = len(w) == N - 1 and all(zero(a - b) for a, b in zip(w, want_w))
                 ctx.ob(okw, Finding("C16.P-width", fi.where, f"{fname}|{geom}|widths",
-                                    f"{fname}({geom}): reported widths {[str(sp.simplify(x)) for x in w]}; required 2*(t_i + r_i) for points 0..{N - 2}: "
+                                    f"{fname}({geom}): reported widths {[show(x) for x in w]}; required 2*(t_i + r_i) for points 0..{N - 2}: "
                                     f"{[str(x) for x in want_w]}"),
                        nontrivial_key=(fname, geom, zero_t, "w"), sample={"rule": "P-width", "method": fname, "geometry": geom, "widths": [str(x) for x in w]})
                 full_w = [2 * (tt[i] + r[i]) for i in range(N)]
@@ -97,9 +106,9 @@ def r_methods(ctx: Ctx, model):
                 if zero_t:
                     okv = len(pv) == N - 1 and all(zero(pv[k] - (V[k + 1] - V[k])) for k in range(N - 1))
                     ctx.ob(okv, Finding("C16.P-volume", fi.where, f"{fname}|{geom}|zero-thickness-volumes",
-                                        f"{fname}({geom}) with a zero-thickness layer: pore volumes {[str(sp.simplify(x)) for x in pv]}; required the "
+                                        f"{fname}({geom}) with a zero-thickness layer: pore volumes {[show(x) for x in pv]}; required the "
                                         "successive changes V_(k+1) - V_k (so that they sum to the total change)"),
-                           nontrivial_key=(fname, geom, "v"), sample={"rule": "P-volume", "method": fname, "volumes": [str(sp.simplify(x)) for x in pv]})
+                           nontrivial_key=(fname, geom, "v"), sample={"rule": "P-volume", "method": fname, "volumes": [show(x) for x in pv]})
         # geometries a method does not support are refused
         if fname != "psd_pygapsdh":
             outs = I.explore(lambda I: I.call_func(fi, [Vec(list(V)), Vec(list(p)), "slit", Obj(kind="TModel"), Obj(kind="KModel")], {}, None))
@@ -160,7 +169,7 @@ def r_cumulative(ctx: Ctx, model):
             ok = len(cum) == m and all(zero(a - b) for a, b in zip(cum, want))
             ctx.ob(ok, Finding("C16.P-cumul", fi.where, f"psd_mesoporous|{psd_model}|cumulative-anchor",
                                f"psd_mesoporous(limits={limits}) using points {[str(x) for x in used_v]}: the cumulative curve ends at "
-                               f"{sp.simplify(cum[-1]) if cum else None}; it must end at the volume adsorbed at the highest pressure used ({used_v[-1]})"),
+                               f"{show(cum[-1]) if cum else None}; it must end at the volume adsorbed at the highest pressure used ({used_v[-1]})"),
                    nontrivial_key=(psd_model, str(limits), tuple(c for l, c in oc.decisions)),
                    sample={"rule": "P-cumul", "model": psd_model, "window": [str(x) for x in used_v], "last": str(cum[-1]) if cum else None} if npaths % 9 == 0 else None)
             lim = res.get("limits")
